@@ -198,7 +198,20 @@ func init() {
 		t := time.Date(v[0], time.Month(v[1]), v[2], v[3], v[4], v[5], v[6], time.UTC)
 		return m.timeFromNs(canon(uint64(t.UnixNano()), 64, true))
 	})
-	reg("time.Sleep", func(m *Machine, fr *frame, a []Value) Value { m.yield("time.Sleep"); return nil })
+	reg("time.Sleep", func(m *Machine, fr *frame, a []Value) Value {
+		// the modelled wall clock (time.Now) advances by exactly d for d > 0
+		switch d := a[0].(type) {
+		case uint64:
+			if int64(d) > 0 {
+				m.nowV = m.binop(token.ADD, i64T, m.now(), d, i64T)
+			}
+		case *Term:
+			pos := m.tf.Cmp("bvslt", m.tf.BV(0, 64), d)
+			m.nowV = m.binop(token.ADD, i64T, m.now(), lowerTerm(m.tf.Ite(pos, d, m.tf.BV(0, 64)), true), i64T)
+		}
+		m.yield("time.Sleep")
+		return nil
+	})
 	reg("time.After", func(m *Machine, fr *frame, a []Value) Value { return newTimerChan(m) })
 	reg("time.Tick", func(m *Machine, fr *frame, a []Value) Value { return newTimerChan(m) })
 	mkTimer := func(m *Machine, pkgType string) Value {
